@@ -40,6 +40,28 @@ fn main() {
             Some(e) => orch::worker_main(e.as_ref(), &args[1..]),
             None => 2,
         },
+        // single-process batch for Miri: miri <prop> <seed> <start> <count>
+        Some("miri") if args.len() >= 5 => match engines::engine_of(&args[1]) {
+            Some(e) => {
+                let seed: u64 = args[2].parse().unwrap_or(1);
+                let start: u64 = args[3].parse().unwrap_or(0);
+                let count: u64 = args[4].parse().unwrap_or(1);
+                let mut acc = orch::Acc::default();
+                let mut code = 0;
+                for idx in start..start + count {
+                    println!("R {}", idx);
+                    e.run_one(seed, idx, orch::Tier::Quick, &mut acc);
+                    if let Some(v) = acc.violations.first() {
+                        println!("NATIVE-VIOLATION {}", serde_json::to_string(v).unwrap());
+                        code = 1;
+                        break;
+                    }
+                }
+                println!("MIRI-BATCH-DONE runs={} cases={} steps={}", count, acc.runs, acc.steps);
+                code
+            }
+            None => 2,
+        },
         Some("replay") if args.len() >= 2 => orch::replay_main(&|p| engines::engine_of(p), &args[1]),
         Some("replay-inner") if args.len() >= 2 => {
             let case: Option<orch::Case> = std::fs::read_to_string(&args[1]).ok().and_then(|s| serde_json::from_str(&s).ok());
